@@ -231,6 +231,10 @@ def install(I):
         return I.ret(st, args[0])
 
     # ------------------------------------------------------------------ Vec / VecDeque
+    @M(r'^(HashSet|HashMap|BTreeMap)::<.*>::(new|with_capacity)$', 'HashSet / HashMap::new')
+    def m_hash_new(I, st, f, args, fr):
+        return I.ret(st, Agg(re.match(r'^(\w+)::', f).group(1), ()))
+
     @M(r'^Vec::<.*>::(new|with_capacity)$|^VecDeque::<.*>::(new|with_capacity)$', 'Vec::new')
     def m_vec_new(I, st, f, args, fr):
         return I.ret(st, Agg('VecDeque' if f.startswith('VecDeque') else 'Vec', ()))
@@ -316,6 +320,37 @@ def install(I):
             I.write(s, r.cell, r.path, Agg(cur.ty, cur.fields[:n]))
             outs.append(Outcome(s, 'ret', UNIT))
         return outs
+
+    @M(r'(^|::)slice::<impl \[.*\]>::(sort|sort_unstable)$', 'slice::sort (concrete strings / integers only)')
+    def m_sort(I, st, f, args, fr):
+        r = args[0]
+        v = I.read(st, r.cell, r.path)
+        if not is_coll(v, 'Vec', '[]'):
+            raise Unmodelled('sort of %r' % (v,))
+
+        def k(x):
+            if isinstance(x, Str):
+                return (0, x.s)
+            if isinstance(x, Sc) and x.concrete() is not None:
+                return (1, x.concrete())
+            raise Unmodelled('sort of symbolic elements')
+        I.write(st, r.cell, r.path, Agg(v.ty, sorted(v.fields, key=k)))
+        return I.ret(st, UNIT)
+
+    @M(r'^Vec::<.*>::dedup$', 'Vec::dedup (concrete elements)')
+    def m_dedup(I, st, f, args, fr):
+        r = args[0]
+        v = coll_ref(I, st, r, ('Vec',), 'Vec')
+        out = []
+        for x in v.fields:
+            if not isinstance(x, (Str,)) and not (isinstance(x, Sc) and x.concrete() is not None):
+                raise Unmodelled('dedup of symbolic elements')
+            kx = x.s if isinstance(x, Str) else x.concrete()
+            if out and (out[-1].s if isinstance(out[-1], Str) else out[-1].concrete()) == kx:
+                continue
+            out.append(x)
+        I.write(st, r.cell, r.path, Agg('Vec', out))
+        return I.ret(st, UNIT)
 
     @M(r'^Vec::<.*>::truncate$|^VecDeque::<.*>::truncate$', 'Vec::truncate')
     def m_truncate(I, st, f, args, fr):
@@ -502,6 +537,8 @@ def install(I):
         res.append((cur, None))
         return res
 
+    I.map_find = map_find
+
     @M(r'^HashMap::<.*>::insert$|^BTreeMap::<.*>::insert$', 'HashMap / BTreeMap::insert (BTreeMap entries are kept in key order)')
     def m_map_insert(I, st, f, args, fr):
         r = args[0]
@@ -598,6 +635,8 @@ def install(I):
 
     @M(r'(^|::)Entry::<.*>::or_default$', 'Entry::or_default (integer value types: 0)')
     def m_entry_or_default(I, st, f, args, fr):
+        if 'dashmap' in f:
+            return NotImplemented      # returns a RefMut, not &mut V (props/pgworld.py)
         e = args[0]
         if e.variant == 'Occupied':
             mr, idx = _occ(I, st, e.fields[0])
@@ -722,7 +761,8 @@ def install(I):
     def m_into_iter(I, st, f, args, fr):
         try:
             return I.ret(st, as_iter(I, st, args[0]))
-        except Unmodelled:
+        except Unmodelled as e:
+            st.ghost['last_into_iter_error'] = str(e)
             return NotImplemented
 
     @M(r'^<.* as Iterator>::next$', 'Iterator::next')
